@@ -97,6 +97,14 @@ Theorem C11_make_primary_only_own_pointer :
 Proof. exact make_primary_only_own_pointer_thm. Qed.
 Print Assumptions C11_make_primary_only_own_pointer.
 
+(* every RNS message (Register, Transfer, Buy, Bid, AcceptBid, ...) leaves the primary-name pointers of every
+   other account alone: in particular a transfer signed by the sender never writes the receiver's pointer *)
+Theorem C11_rns_messages_touch_only_own_primary_pointer :
+  forall st op k, acct k <> acct (pop_signer op) ->
+    aget sp_eqb (fst (pstep st op)) k = aget sp_eqb st k.
+Proof. exact rns_messages_touch_only_own_primary_pointer_thm. Qed.
+Print Assumptions C11_rns_messages_touch_only_own_primary_pointer.
+
 Theorem C11_primary_pointers_untouched_by_other_accounts :
   forall ops st a,
     Forall (fun op => acct (pop_signer op) <> a) ops ->
